@@ -12,6 +12,7 @@ import (
 	"regexp"
 	"runtime"
 	"strings"
+	"sync"
 	"syscall"
 	"time"
 
@@ -82,6 +83,34 @@ func (rc *runCtx) log(format string, a ...any) {
 }
 
 var engines = map[string]*engine{}
+
+// state of the run in progress, for emitFatal (called from a watchdog goroutine)
+var (
+	curIdx    uint64
+	curSeed   uint64
+	curEngine string
+	curStart  time.Time
+	outMu     sync.Mutex
+	outW      *bufio.Writer
+)
+
+// emitFatal reports the run in progress with res as its outcome and ends the process. Used when
+// the run itself can never return (a decode that does not terminate).
+func emitFatal(rc *runCtx, res *RunResult) {
+	outMu.Lock()
+	res.T = "run"
+	res.Engine = curEngine
+	res.Idx = curIdx
+	res.Seed = curSeed
+	res.Stats = map[string]int64{}
+	res.WallUS = time.Since(curStart).Microseconds()
+	res.Tape = core.T.Snapshot()
+	res.Trace = append([]string(nil), rc.trace...)
+	res.Fatal = true
+	json.NewEncoder(outW).Encode(res)
+	outW.Flush()
+	os.Exit(3)
+}
 
 func register(e *engine) { engines[e.name] = e }
 
@@ -180,6 +209,7 @@ func main() {
 	s2.VerifBeforeUnlockFn = core.BeforeUnlock
 
 	out := bufio.NewWriterSize(os.Stdout, 1<<16)
+	outW = out
 	defer out.Flush()
 	enc := json.NewEncoder(out)
 
@@ -216,7 +246,9 @@ func main() {
 			core.T.StartRecord(rs)
 		}
 		w0 := time.Now()
+		curIdx, curSeed, curEngine, curStart = idx, *seed, eng.name, w0
 		res := eng.run(rc)
+		outMu.Lock()
 		res.T = "run"
 		res.Engine = eng.name
 		res.Idx = idx
@@ -242,6 +274,7 @@ func main() {
 				out.Flush()
 				os.Exit(3)
 			}
+			outMu.Unlock()
 			continue
 		}
 		if err := enc.Encode(res); err != nil {
@@ -254,6 +287,7 @@ func main() {
 			out.Flush()
 			os.Exit(3)
 		}
+		outMu.Unlock()
 	}
 	out.Flush()
 	_ = runtime.NumGoroutine
